@@ -281,8 +281,9 @@ def instances(decl, mode, seed, n):
         # the hints, care sets inside / equal to / beyond the hints, and
         # predicates that cover the whole care set (trivial cover)
         outside = [p for p in pts if p not in hint]
+        names_ = ref.names
         for i in range(n):
-            k = i % 5
+            k = i % 9
             if k == 0:
                 care, f = list(hint), [p for p in pts if rnd.random() < 0.4]
             elif k == 1:
@@ -293,11 +294,35 @@ def instances(decl, mode, seed, n):
                 f = [p for p in pts if rnd.random() < 0.4]
             elif k == 3:
                 care, f = list(pts), [p for p in pts if rnd.random() < 0.5]
-            else:
+            elif k == 4:
                 care = [p for p in hint if rnd.random() < 0.8]
                 f = care + [p for p in outside if rnd.random() < 0.5]
+            elif k == 5 and len(names_) >= 2:
+                # the predicate depends on the first variable only; the care set also
+                # on the last one, beyond that variable's hint
+                f0 = {v for v in {p[0] for p in pts} if rnd.random() < 0.5} or {pts[0][0]}
+                f = [p for p in pts if p[0] in f0]
+                lo, hi = decl[names_[-1]]
+                thr = rnd.choice(sorted({p[-1] for p in pts}))
+                care = [p for p in pts if (p[-1] >= thr if rnd.random() < 0.5 else p[-1] <= thr)
+                        and decl[names_[0]][0] <= p[0] <= decl[names_[0]][1]]
+            else:
+                # care sets bounded on ONE side of the hint only (towards the limits or towards zero)
+                j = (i // 9) % len(names_)
+                lo, hi = decl[names_[j]]
+                side = (k % 2 == 0)
+                care = [p for p in pts if (p[j] <= hi if side else p[j] >= lo)
+                        and all(decl[names_[m]][0] <= p[m] <= decl[names_[m]][1] for m in range(len(names_)) if m != j)]
+                f = [p for p in care if rnd.random() < 0.6]
             if f and care and len(f) != len(pts):
                 out.append((f, care))
+    elif mode == 'all-but-two':
+        # every predicate that misses exactly two points of the grid (care = TRUE):
+        # small cyclic cores with pruned branches
+        for a, b in itertools.combinations(range(len(pts)), 2):
+            out.append(([p for i, p in enumerate(pts) if i not in (a, b)], list(pts)))
+        if n and len(out) > n:
+            out = rnd.sample(out, n)
     elif mode == 'cyclic-core':
         # sampled larger instances whose covering problem has a non-empty cyclic
         # core (no essential prime covers everything): the branch and bound runs
